@@ -505,6 +505,21 @@ class _NP:
     def size(self, a):
         return as_array(a).size
 
+    def result_type(self, *args):
+        _use("result_type")
+        from .arr import _join_kinds
+
+        ks = []
+        for a in args:
+            if isinstance(a, SymArr):
+                ks.append(a.kind)
+            elif isinstance(a, (SymNum, int, float, bool)):
+                ks.append({"real": "f", "int": "i", "bool": "b"}[kind_of(a)])
+            else:
+                ks.append(parse_dtype(a).kind)
+        k = _join_kinds(ks)
+        return DType("i" if k == "b" else k)
+
     def isscalar(self, x):
         _use("isscalar")
         import numpy as _np
